@@ -197,4 +197,19 @@ def Env.step (e : Env) (a : Action) (u : Rat) : Env × StepOut × Bool :=
   ({ e with cur := o.next, lastObs := o.obs, steps := e.steps + 1 }, o,
    truncated e.sc (e.steps + 1))
 
+/-- operations a user can perform on a live environment -/
+inductive Op
+  | reset
+  | step (a : Action) (u : Rat)
+  | genStep (s : State) (a : Action) (u : Rat)   -- pure: returns a value, leaves the env alone
+deriving Repr, Inhabited
+
+def Env.apply (e : Env) : Op → Env
+  | .reset => e.reset
+  | .step a u => (e.step a u).1
+  | .genStep _ _ _ => e
+
+/-- the environment after any interleaving of operations -/
+def Env.run (e : Env) (ops : List Op) : Env := ops.foldl Env.apply e
+
 end NASim
